@@ -68,6 +68,30 @@ Theorem C15_row_unsafe_refuted : exists args ps, Forall MkClean args /\ Forall p
 Proof. exact row_case_unsafe_witness. Qed.
 Print Assumptions C15_row_unsafe_refuted.
 
+(* ... with arguments of ANY kind: a plain or Markup string, or a non-string object (list, tuple, dict,
+   object with __str__, str subclass without __html__) whose text carries data — such an object is
+   never Markup, so a safe case may only let it into a Markup result through escape *)
+Theorem C15_row_case_clean_carriers : forall taints fl args ps,
+  flows_safe taints fl = true -> map c_is_mk args = taints ->
+  Forall cMkClean args -> Forall piece_ok ps -> Clean (render_pieces_c args fl ps).
+Proof. exact row_case_clean_c. Qed.
+Print Assumptions C15_row_case_clean_carriers.
+
+(* lifted to a whole row table: instantiated in the regenerated Gen_filter_rows.v with the table
+   observed on the running jinja2, which contains the string rows AND the carrier rows *)
+Theorem C15_rows_table_clean : forall rows, row_safe rows = true ->
+  forall taints fl, In (taints, true, fl) rows ->
+  forall args ps, map c_is_mk args = taints -> Forall cMkClean args -> Forall piece_ok ps ->
+  Clean (render_pieces_c args fl ps).
+Proof. exact rows_table_clean. Qed.
+Print Assumptions C15_rows_table_clean.
+
+(* an object copied raw into a Markup result leaks (what seeded change C15_b did to xmlattr) *)
+Theorem C15_row_carrier_raw_refuted : exists args ps,
+  Forall cMkClean args /\ Forall piece_ok ps /\ map c_is_mk args = [false] /\ ~ Clean (render_pieces_c args [FlRaw] ps).
+Proof. exact row_case_carrier_raw_witness. Qed.
+Print Assumptions C15_row_carrier_raw_refuted.
+
 (* ---- autoescape_safe, for ALL templates of T, all data, all fuel.
    c15_ok t : no |safe, template text Clean, no {% autoescape false %};
    top_ok b0 t : the environment default is on, or the top level consists of template text and
